@@ -148,7 +148,8 @@ fn attribute(_sql: &str, plan_text: &str, back_text: &str, _what: &str) -> Optio
     }
     // RANGE frames with numeric offsets: unoptimised plans come back UNBOUNDED..UNBOUNDED, optimised plans keep the
     // text but return different rows (the typed offset literal is not preserved)
-    if let Some(p) = plan_text.find("RANGE BETWEEN ") {
+    // (every RANGE frame of the plan is inspected: a query may hold several windows)
+    for (p, _) in plan_text.match_indices("RANGE BETWEEN ") {
         let rest = &plan_text[p + "RANGE BETWEEN ".len()..];
         if rest.chars().next().map(|c| c.is_ascii_digit()).unwrap_or(false) || rest.contains(" AND 1 ") {
             return Some("range_frame_offsets_not_preserved");
